@@ -366,7 +366,7 @@ class Gen:
         return out or [("s", "pass")]
 
     def stmt(self, depth, loop_depth, in_main):
-        kinds = ["assign"] * 4 + ["write"] * 5 + ["aug"] * 2 + ["sleep", "swap", "tuple", "tuple_dep", "pin", "led", "comment", "passs", "callstmt"]
+        kinds = ["assign"] * 4 + ["write"] * 5 + ["aug"] * 4 + ["sleep", "swap", "tuple", "tuple_dep", "pin", "led", "comment", "passs", "callstmt"]
         if depth < self.p.max_depth:
             kinds += ["if"] * 3 + ["for"] * 2 + ["while"] * 2
         if loop_depth > 0:
@@ -405,7 +405,7 @@ class Gen:
                 self.feat("aug_bitop")
                 rhs = self.int_lit(0, 15)
             else:
-                rhs = self.int_lit(0, 3) if op == "*=" else self.e_int(1)
+                rhs = self.choice(["2", "2", "3", "0", "1", "2"]) if op == "*=" else self.e_int(1)
         elif t == "float":
             ops = ["+=", "-=", "*="]
             if self.p.on("floordiv_mod_neg"):
@@ -426,6 +426,8 @@ class Gen:
             self.feat("aug_signed_observed")
             step = "7.5" if t == "float" else self.int_lit(5, 40)
             return [("s", f"{n} -= {step}"), ("s", f"{n} {op} {rhs}"), ("s", f"mon.write({n})")]
+        if self.d(st.integers(0, 1)):
+            return [("s", f"{n} {op} {rhs}"), ("s", f"mon.write({n})")]   # the new value is observed at once
         return [("s", f"{n} {op} {rhs}")]
 
     def s_swap(self, depth, loop_depth, in_main):
